@@ -1123,3 +1123,143 @@ PRESERVING += [
 BREAKING += [
     ('c6-rule-objects-drop-name-check', ['C04'], [(A, _ENV_ANCHOR, _rule_class(checks='checks[1:]')), (A, _SEARCH_OLD, _SEARCH_OBJ)]),
 ]
+
+
+# ---- C13 white-box audit (round 6): behaviour-preserving edits aimed at every place a C13 finding is raised ----
+_REG_TABLE_END = "    31: 31, '31': 31, 'x31': 31, 't6':   31,\n}\n"
+_BO_SET = "    'lbu',\n    'lhu',\n    'sb',"
+_REGSMATCH = ("            reg_a = getattr(i, a)\n            reg_a = lookup_register(reg_a)\n            reg_b = getattr(i, b)\n            reg_b = lookup_register(reg_b)\n"
+              "            return reg_a == reg_b\n")
+_RD_COUNTER_BOTH = ("    i = 0\n    for raw_line in source.splitlines():\n        # skip empty lines\n        if len(raw_line.strip()) == 0:\n            i += 1\n            continue\n        i += 1\n")
+
+PRESERVING += [
+    # W01 R13.7: the base of int() is a named module constant
+    ('w13-isint-named-base', ['C13'], [(A, "def is_int(value):\n    try:\n        int(value, base=0)", "AUTO_BASE = 0\n\n\ndef is_int(value):\n    try:\n        int(value, base=AUTO_BASE)")]),
+    # W02 R13.7: regex form spelled as an if / return pair
+    ('w13-isint-regex-if-form', ['C13'], [(A, _IS_INT, "RE_INT = re.compile(r'" + _INT_EXACT + "')\n\n\ndef is_int(value):\n    if RE_INT.fullmatch(value) is None:\n        return False\n    return True\n")]),
+    # W03 / W04 R13.1 table: an alias added to the literal table by a separate statement
+    ('w13-registers-update-literal', ['C13'], [(A, "'s0':   8, 'fp': 8,", "'s0':   8,"), (A, _REG_TABLE_END, _REG_TABLE_END + "REGISTERS.update({'fp': 8})\n")]),
+    # W05 R13.2: a set entry added by a separate statement
+    ('w13-base-offset-add', ['C13'], [(A, _BO_SET, "    'lbu',\n    'sb',"), (A, "    'c.lw',\n    'c.sw',\n}\n", "    'c.lw',\n    'c.sw',\n}\nBASE_OFFSET_INSTRUCTIONS.add('lhu')\n")]),
+    ('w13-base-offset-ior', ['C13'], [(A, _BO_SET, "    'lbu',\n    'sb',"), (A, "    'c.lw',\n    'c.sw',\n}\n", "    'c.lw',\n    'c.sw',\n}\nBASE_OFFSET_INSTRUCTIONS |= {'lhu'}\n")]),
+    # W06 R13.3 deletes: the padding substitution swallows separators (blanks and commas) around the paren and writes blanks back
+    ('w13-pad-resub-swallows-separators', ['C13'], [(A, _LEX_PAD, "    contents = re.sub(r'[\\s,]*([()])[\\s,]*', r' \\1 ', contents)")]),
+    # W07 / W08 R13.4: other spellings of `# to the end of the line`
+    ('w13-comment-optional-newline', ['C13'], [(A, _LEX_COMMENT, "    contents = re.sub(r'#.*\\n?', '', line.contents)")]),
+    ('w13-comment-group', ['C13'], [(A, _LEX_COMMENT, "    contents = re.sub(r'#(.*)$', '', line.contents)")]),
+    ('w13-comment-any-class', ['C13'], [(A, _LEX_COMMENT, "    contents = re.sub(r'#[\\s\\S]*', '', line.contents)")]),
+    # W10 R13.4: the comment is cut only when there is one
+    ('w13-comment-conditional-cut', ['C13'], [(A, _LEX_COMMENT, "    contents = line.contents\n    if '#' in contents:\n        contents = contents.split('#', 1)[0]")]),
+    # W11 R13.5: strip spelled as lstrip + rstrip
+    ('w13-lstrip-rstrip', ['C13'], [(A, "    contents = contents.strip()\n", "    contents = contents.lstrip().rstrip()\n")]),
+    # W12 R13.4 anywhere: an anchored pattern wrapped in a group, applied with search
+    ('w13-literal-search-anchored-group', ['C13'], [(A, _RE_STR_DEF, "    RE_STRING = re.compile(r'(?:^\\s*string (.*))')"),
+                                                    (A, "    match = RE_STRING.match(line.contents)", "    match = RE_STRING.search(line.contents)")]),
+    # W13 R13.5 numbering: the counter advances on the skipping path as well
+    # W14 R13.5 hand-over: filter by the unbound __len__
+    ('w13-handover-filter-dunder-len', ['C13'], [(A, "    tokens = [t for t in tokens if len(t) > 0]\n", "    tokens = list(filter(LineTokens.__len__, tokens))\n")]),
+    # W18 R13.5 hand-over: emptiness decided by a helper predicate
+    ('w13-handover-helper-predicate', ['C13'], [(A, "def assemble(path_or_source, *, constants=None", "def has_tokens(line_tokens):\n    return len(line_tokens) > 0\n\n\ndef assemble(path_or_source, *, constants=None"),
+                                                (A, "    tokens = [t for t in tokens if len(t) > 0]\n", "    tokens = [t for t in tokens if has_tokens(t)]\n")]),
+    # W17 R13.1 operand spelling: the numeric spelling is converted and handed to the same construction
+    # W19 R13.7 / R13.1: the numeric-literal helper under another name
+    ('w13-isint-renamed', ['C13'], [(A, "is_int(", "is_integer_literal(", 'all')]),
+    # W20 R13.6: the register numbers are taken by a local helper of the predicate factory
+    ('w13-regsmatch-helper', ['C13'], [(A, _REGSMATCH, "            def number(field):\n                return lookup_register(getattr(i, field))\n            return number(a) == number(b)\n")]),
+]
+
+UNDECIDED += [
+    # W15: lines are screened by their text before lexing, no check on the token lines: not `comment-only lines reach the parser`
+    ('w13-handover-lines-screened', ['C13'], [(A, _ASM_FRONT, "    lines = [l for l in lines if l.contents.split('#')[0].strip(', \\t')]\n    items = [parse_item(lex_tokens(l)) for l in lines]\n")]),
+]
+
+UNDECIDED += [
+    # accepted by the C13 rules themselves; the verdict is withheld by a shared engine (bitdom: REGISTERS written outside its literal;
+    # wiring: int(token) as a constructor argument) or by a loop shape the reader rule does not follow (counter advanced on two paths)
+    ('w13-registers-item-assignment', ['C13'], [(A, "'s0':   8, 'fp': 8,", "'s0':   8,"), (A, _REG_TABLE_END, _REG_TABLE_END + "# the frame pointer is another name of s0\nREGISTERS['fp'] = 8\n")]),
+    ('w13-counter-both-paths', ['C13'], [(A, _RD_LOOP + _RD_SKIP, _RD_COUNTER_BOTH)]),
+    ('w13-rtype-number-converted', ['C13'], [(A, _RTYPE_RET, _RTYPE_HEAD + "        if is_int(rs2):\n            return RTypeInstruction(line, name, rd, rs1, int(rs2, 0))\n"
+                                              "        return RTypeInstruction(line, name, rd, rs1, rs2)\n")]),
+]
+
+# breaking / undecided counterparts of the audit twins: the same constructs with the property actually broken
+BREAKING += [
+    ('w13x-isint-named-base-10', ['C13'], [(A, "def is_int(value):\n    try:\n        int(value, base=0)", "AUTO_BASE = 10\n\n\ndef is_int(value):\n    try:\n        int(value, base=AUTO_BASE)")]),
+    ('w13x-isint-regex-if-form-lowercase', ['C13'], [(A, _IS_INT, "RE_INT = re.compile(r'[+-]?(0x[0-9a-f]+|0b[01]+|0o[0-7]+|[0-9]+)')\n\n\ndef is_int(value):\n    if RE_INT.fullmatch(value) is None:\n        return False\n    return True\n")]),
+    ('w13x-registers-update-wrong-number', ['C13'], [(A, "'s0':   8, 'fp': 8,", "'s0':   8,"), (A, _REG_TABLE_END, _REG_TABLE_END + "REGISTERS.update({'fp': 9})\n")]),
+    ('w13x-base-offset-add-other', ['C13'], [(A, _BO_SET, "    'lbu',\n    'sb',"), (A, "    'c.lw',\n    'c.sw',\n}\n", "    'c.lw',\n    'c.sw',\n}\nBASE_OFFSET_INSTRUCTIONS.add('lh')\n")]),
+    ('w13x-pad-resub-swallows-word-char', ['C13'], [(A, _LEX_PAD, "    contents = re.sub(r'[\\s,]*([()])\\w?', r' \\1 ', contents)")]),
+    ('w13x-comment-group-one-char', ['C13'], [(A, _LEX_COMMENT, "    contents = re.sub(r'#(.)$', '', line.contents)")]),
+    ('w13x-comment-optional-newline-lazy', ['C13'], [(A, _LEX_COMMENT, "    contents = re.sub(r'#.*?\\n?', '', line.contents)")]),
+    ('w13x-comment-conditional-cut-unused', ['C13'], [(A, _LEX_COMMENT, "    contents = line.contents\n    if '#' in contents:\n        without_comment = contents.split('#', 1)[0]")]),
+    ('w13x-isint-renamed-base-10', ['C13'], [(A, "is_int(", "is_integer_literal(", 'all'), (A, "        int(value, base=0)\n        return True", "        int(value)\n        return True")]),
+]
+
+UNDECIDED += [
+    ('w13x-isint-regex-inverted', ['C13'], [(A, _IS_INT, "RE_INT = re.compile(r'" + _INT_EXACT + "')\n\n\ndef is_int(value):\n    return RE_INT.fullmatch(value) is None\n")]),
+    ('w13x-handover-filter-dunder-str', ['C13'], [(A, "    tokens = [t for t in tokens if len(t) > 0]\n", "    tokens = list(filter(LineTokens.__str__, tokens))\n")]),
+    ('w13x-handover-helper-predicate-odd', ['C13'], [(A, "def assemble(path_or_source, *, constants=None", "def has_tokens(line_tokens):\n    return line_tokens is not None\n\n\ndef assemble(path_or_source, *, constants=None"),
+                                                     (A, "    tokens = [t for t in tokens if len(t) > 0]\n", "    tokens = [t for t in tokens if has_tokens(t)]\n")]),
+    ('w13x-rtype-number-converted-base-10', ['C13'], [(A, _RTYPE_RET, _RTYPE_HEAD + "        if is_int(rs2):\n            return RTypeInstruction(line, name, rd, rs1, int(rs2, 10))\n"
+                                                       "        return RTypeInstruction(line, name, rd, rs1, rs2)\n")]),
+    ('w13x-pad-resub-swallows-no-blanks', ['C13'], [(A, _LEX_PAD, "    contents = re.sub(r'[\\s,]*([()])[\\s,]*', r'\\1', contents)")]),
+    ('w13x-isint-missing', ['C13'], [(A, "        if is_int(reference):\n            imm = [reference]\n        else:\n            # behavior is \"offset\" for branches to labels\n            imm = ['%offset', reference]\n",
+                                      "        imm = [reference] if reference[:1].isdigit() else ['%offset', reference]\n"),
+                                     (A, "        if is_int(reference):\n            imm = [reference]\n        else:\n            # behavior is \"offset\" for jumps to labels\n            imm = ['%offset', reference]\n",
+                                      "        imm = [reference] if reference[:1].isdigit() else ['%offset', reference]\n"),
+                                     (A, "is_int(", "looks_numeric(", 'all')]),
+]
+
+_B_ARM_INT = "        if is_int(reference):\n            imm = [reference]\n        else:\n            # behavior is \"offset\" for branches to labels\n            imm = ['%offset', reference]\n"
+_J_ARM_INT = "        if is_int(reference):\n            imm = [reference]\n        else:\n            # behavior is \"offset\" for jumps to labels\n            imm = ['%offset', reference]\n"
+_IS_LABEL = "def is_label(text):\n    return not is_int(text)\n\n\ndef sign_extend(value, bits):"
+
+PRESERVING += [
+    # W21 R13.2: an entry of the base-offset set that is no mnemonic (never consulted)
+    ('w13-base-offset-dead-entry', ['C13'], [(A, "    'c.lw',\n    'c.sw',\n}\n", "    'c.lw',\n    'c.sw',\n    'ld',      # RV64, not assembled yet\n}\n")]),
+    # W22 R13.7 helper discovery: a `this is a name` predicate decides the other way round - it is not the numeric-literal helper
+    ('w13-islabel-predicate', ['C13'], [(A, "def sign_extend(value, bits):", _IS_LABEL),
+                                        (A, _B_ARM_INT, "        if is_label(reference):\n            imm = ['%offset', reference]\n        else:\n            imm = [reference]\n"),
+                                        (A, _J_ARM_INT, "        if is_label(reference):\n            imm = ['%offset', reference]\n        else:\n            imm = [reference]\n")]),
+]
+
+BREAKING += [
+    ('w13x-base-offset-live-extra', ['C13'], [(A, "    'c.lw',\n    'c.sw',\n}\n", "    'c.lw',\n    'c.sw',\n    'addi',\n}\n")]),
+    # a lexer the rules do not follow must not mask the reader's violation (no-verdicts are deferred to the end of the run)
+    ('w13x-violation-next-to-no-verdict', ['C13'], [(A, _LEX_STRIP, "    contents = contents.strip().lower()\n"),
+                                                    (A, "    for i, raw_line in enumerate(source.splitlines(), start=1):", "    for i, raw_line in enumerate([l for l in source.splitlines() if l.strip()], start=1):")]),
+]
+
+
+# ---- C13 round 7: comments start at `#` only; comment lines are never directives; carriage returns left on lines ----
+_RD_INCLUDE_TEST = "        if raw_line.lower().startswith('include '):"
+_RD_INCLUDE_SUB = "                raw_include = re.sub(r'#.*$', r'', raw_line)"
+
+BREAKING += [
+    # `//` cuts expressions: VALUE = 100 // 7 defines 100
+    ('c13-comment-also-slashes', ['C13'], [(A, _LEX_COMMENT, "    contents = re.sub(r'(#|//).*$', r'', line.contents)")]),
+    ('c13-comment-also-semicolon', ['C13'], [(A, _LEX_COMMENT, "    contents = re.sub(r'[#;].*', '', line.contents)")]),
+    # a commented-out include is executed
+    ('c13-reader-hash-include', ['C13'], [(A, _RD_INCLUDE_TEST, "        if raw_line.lower().startswith(('include ', '#include ')):"),
+                                          (A, _RD_INCLUDE_SUB, "                raw_include = re.sub(r'#.*$', r'', raw_line.lstrip('#'))")]),
+    ('c13-reader-hash-stripped-first', ['C13'], [(A, _RD_INCLUDE_TEST, "        if raw_line.lstrip('# ').lower().startswith('include '):"),
+                                                 (A, _RD_INCLUDE_SUB, "                raw_include = re.sub(r'#.*$', r'', raw_line.lstrip('# '))")]),
+    # \r\n files: every line keeps its \r, and `string` takes the rest of the line verbatim
+    ('c13-split-newline', ['C13'], [(A, _RD_LOOP, "    for i, raw_line in enumerate(source.split('\\n'), start=1):\n")]),
+]
+
+PRESERVING += [
+    ('p13-reader-skip-comment-lines', ['C13'], [(A, _RD_SKIP, _RD_SKIP + "        # whole-line comments carry nothing\n        if raw_line.lstrip().startswith('#'):\n            continue\n")]),
+    # (C13 only: the lines agree for \n and \r\n files; other line separators of splitlines() are no documented freedom)
+    ('p13-split-newline-rstrip', ['C13'], [(A, _RD_LOOP, "    for i, raw_line in enumerate(source.split('\\n'), start=1):\n        raw_line = raw_line.rstrip('\\r')\n")]),
+    ('p13-split-newline-literals-exclude-cr', ['C13'], [(A, _RD_LOOP, "    for i, raw_line in enumerate(source.split('\\n'), start=1):\n"),
+                                                        (A, _RE_ERR_DEF, "    RE_ERROR = re.compile(r'\\s*error ([^\\r\\n]*)')"),
+                                                        (A, _RE_STR_DEF, "    RE_STRING = re.compile(r'\\s*string ([^\\r\\n]*)')")]),
+]
+
+UNDECIDED += [
+    ('u13-comment-alternation-hash-only', ['C13'], [(A, _LEX_COMMENT, "    contents = re.sub(r'(#|\\s+#).*$', r'', line.contents)")]),
+    ('u13-split-newline-literal-word-tail', ['C13'], [(A, _RD_LOOP, "    for i, raw_line in enumerate(source.split('\\n'), start=1):\n"),
+                                                      (A, _RE_ERR_DEF, "    RE_ERROR = re.compile(r'\\s*error ([^\\r\\n]*)')"),
+                                                      (A, _RE_STR_DEF, "    RE_STRING = re.compile(r'\\s*string ([\\w ]*)')")]),
+]
